@@ -112,10 +112,11 @@ Definition gstep (g : ghost) (o : op) : option ghost :=
     | None => None
     end
   | ORestack c w => if is_restack c && gusable g (idx w) then Some g else None
-  | OShow w | OHide w | OFocus w | OSteal w _ | OExpose w | OGetRoot w | OBind w _ _ _ _ _ | OUnbind w _ | OGeom w =>
+  | OShow w | OHide w | OFocus w | OSteal w _ | ONotify w _ | OExpose w | OGetRoot w | OBind w _ _ _ _ _ | OUnbind w _ | OGeom w | OMove w =>
     if gusable g (idx w) then Some g else None
   | OFlush w => if Nat.eqb (idx w) O && gusable g O then Some g else None
-  | OKey | OMouse _ | ONop => Some g
+  | OTouch w j _ => if gusable g (idx w) && (match j with Some a => gusable g (idx a) | None => true end) then Some g else None
+  | OKey | OMouse _ | OResize | ONop => Some g
   | OFrameRef _ | OFrameUnref _ => Some g          (* the library's own references: not the client's business *)
   end.
 
